@@ -122,7 +122,69 @@ def match_known(known, sig: str):
     return None
 
 
+
 # --------------------------------------------------------------------------
+# recipe-level delta debugging (after / instead of Hypothesis' tape shrinking)
+
+SHRINK_KEYS = {"atoms", "bonds", "atom_stereo", "bond_stereo", "atom_changes",
+               "bond_changes", "mapping", "ops", "subset", "pieces", "followup",
+               "labels", "faults", "coords", "elements", "history"}
+
+
+def _list_paths(obj, path=()):
+    if isinstance(obj, dict):
+        for k, v in obj.items():
+            if isinstance(v, list) and k in SHRINK_KEYS:
+                yield path + (k,)
+            yield from _list_paths(v, path + (k,))
+    elif isinstance(obj, list):
+        for i, v in enumerate(obj):
+            if isinstance(v, (dict, list)):
+                yield from _list_paths(v, path + (i,))
+
+
+def _get(obj, path):
+    for k in path:
+        obj = obj[k]
+    return obj
+
+
+def _generic_candidates(case):
+    import copy
+    for path in sorted(set(_list_paths(case)), key=lambda p: -len(p)):
+        lst = _get(case, path)
+        for i in range(len(lst) - 1, -1, -1):
+            cand = copy.deepcopy(case)
+            del _get(cand, path)[i]
+            yield cand
+
+
+def minimize(case, still_fails, candidates=None, max_checks=2500):
+    """Greedy delta debugging: take the first candidate (a strictly smaller
+    case) that still fails with the same signature, restart from it."""
+    if candidates is None:
+        candidates = _generic_candidates
+    budget = max_checks
+    progress = True
+    while progress and budget > 0:
+        progress = False
+        try:
+            cands = candidates(case)
+            for cand in cands:
+                if budget <= 0:
+                    break
+                budget -= 1
+                try:
+                    ok = bool(still_fails(cand))
+                except Exception:
+                    ok = False
+                if ok:
+                    case = cand
+                    progress = True
+                    break
+        except HarnessError:
+            break
+    return case
 
 
 class Ctx:
@@ -221,8 +283,8 @@ class Ctx:
         self.record_violation(v.sig, v.msg, case)
 
     # ---- hypothesis driver ------------------------------------------------
-    def hyp(self, name, strategy, check, n_examples, max_rounds=6,
-            shrink=True):
+    def hyp(self, name, strategy, check, n_examples, max_rounds=25,
+            shrink=False, ddmin=True, shrinker=None):
         """Run ``check(case)`` over ``strategy``.  Known findings are counted
         and skipped, every new signature is shrunk separately and muted."""
         import hypothesis
@@ -233,7 +295,12 @@ class Ctx:
         rounds = 0
         sub_seed = (self.seed * 1000003 + self.shard * 7919
                     + int(hashlib.sha1(name.encode()).hexdigest()[:6], 16))
+        t_start = time.time()
+        wall_budget = 150 if self.tier == "quick" else 1500
         while remaining > 0 and rounds < max_rounds:
+            if rounds and time.time() - t_start > wall_budget:
+                self.extra["time_budget_hit"] = 1   # explored less, no verdict
+                break
             rounds += 1
             self._target_sig = None
             self._last_failure = None
@@ -260,6 +327,8 @@ class Ctx:
                 remaining = 0
             except Violation:
                 sig, msg, case = self._last_failure
+                if ddmin:
+                    case, msg = self._ddmin(check, sig, msg, case, shrinker)
                 self.record_violation(sig, msg, case)
                 remaining -= executed[0]
             except hypothesis.errors.FailedHealthCheck as e:
@@ -267,6 +336,28 @@ class Ctx:
             except hypothesis.errors.Unsatisfiable as e:
                 raise HarnessError(f"{name}: unsatisfiable: {e}")
         self._target_sig = None
+
+    def _ddmin(self, check, sig, msg, case, shrinker=None):
+        last = [msg]
+        saved = (self.evaluations, self.classes.copy(),
+                 set(self.nontrivial), list(self.samples),
+                 self.excluded.copy())
+
+        def still_fails(c):
+            try:
+                check(c)
+            except Violation as v:
+                if v.sig == sig:
+                    last[0] = v.msg
+                    return True
+            return False
+
+        try:
+            case = minimize(case, still_fails, shrinker)
+        finally:
+            (self.evaluations, self.classes, self.nontrivial, self.samples,
+             self.excluded) = saved
+        return case, last[0]
 
     # ---- plain driver for replays / enumerations -----------------------
     def run_case(self, check, case):
